@@ -16,6 +16,7 @@ type FaultAt struct {
 	N      int    `json:"n"`
 	Kind   string `json:"kind"`
 	Status int    `json:"status,omitempty"`
+	Keep   int    `json:"keep,omitempty"` // body_cut: bytes of the body transferred before the connection is dropped (mod its length)
 }
 
 // Case is one generated scenario program with its run parameters.
@@ -221,6 +222,52 @@ func (g *pgen) skeleton() {
 			budget -= n
 			sc.Steps = append(sc.Steps, st)
 		}
+		// the same request listed again with another pause (or none): a pause belongs to the occurrence it is
+		// written at, not to the request
+		if !g.concurrent && budget > 0 && chance(t, 30, "repeatPause") {
+			var idx []int
+			for i, st := range sc.Steps {
+				if !st.Sleep {
+					idx = append(idx, i)
+				}
+			}
+			pi := idx[uni(t, 0, len(idx)-1, "repeatOf")]
+			prev := &sc.Steps[pi]
+			if prev.Ms == nil {
+				n := 1
+				if prev.Count != nil {
+					n = *prev.Count
+				}
+				if ms := rapid.IntRange(1, 3).Draw(t, "repeatFirstMs"); ms*n <= sleepBudget {
+					sleepBudget -= ms * n
+					prev.Count, prev.Ms = intp(n), intp(ms)
+					prev.Tight = rapid.Bool().Draw(t, "repeatFirstTight")
+				}
+			}
+			again := scengen.Step{Name: prev.Name}
+			n := 1
+			switch uni(t, 0, 3, "repeatForm") {
+			case 0, 1: // bare name
+			case 2:
+				n = min(uni(t, 1, 2, "repeatCount"), budget)
+				again.Count = intp(n)
+			default:
+				n = min(uni(t, 1, 2, "repeatCountMs"), budget)
+				again.Count = intp(n)
+				ms := rapid.IntRange(1, 3).Draw(t, "repeatMs")
+				if prev.Ms != nil && ms == *prev.Ms {
+					ms = ms%3 + 1
+				}
+				if ms*n <= sleepBudget {
+					sleepBudget -= ms * n
+					again.Ms = intp(ms)
+				}
+			}
+			budget -= n
+			// anywhere after the first occurrence's item
+			at := uni(t, pi+1, len(sc.Steps), "repeatAt")
+			sc.Steps = append(sc.Steps[:at], append([]scengen.Step{again}, sc.Steps[at:]...)...)
+		}
 		g.p.Scenarios = append(g.p.Scenarios, sc)
 	}
 	// request shells, entries first
@@ -324,6 +371,10 @@ func (g *pgen) posts() {
 			}
 			pos := rapid.IntRange(0, len(r.Posts)).Draw(t, "assertPos")
 			r.Posts = append(r.Posts[:pos], append([]si.Post{a}, r.Posts[pos:]...)...)
+		}
+		// a step nobody looks at the answer of: it must still fail when the exchange itself fails
+		if chance(t, 12, "noPostprocessors") {
+			r.Posts = nil
 		}
 	}
 }
@@ -795,8 +846,12 @@ func genCase(t *rapid.T) Case {
 		kind string
 	}
 	var effective []fk
+	var bare []int // positions whose step has no postprocessors
 	for n, name := range defs {
 		def := c.Prog.Request(name)
+		if len(def.Posts) == 0 {
+			bare = append(bare, n)
+		}
 		for _, p := range def.Posts {
 			if p.Kind == scengen.PostAssert {
 				if len(p.BodyHas) > 0 {
@@ -835,12 +890,18 @@ func genCase(t *rapid.T) Case {
 				continue
 			}
 			f = FaultAt{N: ns[uni(t, 0, len(ns)-1, "plantedAt")], Kind: si.FaultObjString}
+		} else if len(bare) > 0 && chance(t, 30, "bareTransportFault") {
+			// a failure of the exchange itself on a step without postprocessors
+			f = FaultAt{N: bare[uni(t, 0, len(bare)-1, "bareAt")], Kind: si.FaultBodyCut}
+			if chance(t, 30, "bareClose") {
+				f.Kind = si.FaultClose
+			}
 		} else if len(effective) > 0 && chance(t, 55, "effectiveFault") {
 			e := effective[uni(t, 0, len(effective)-1, "effectiveAt")]
 			f = FaultAt{N: e.n, Kind: e.kind}
 		} else {
 			f = FaultAt{N: rapid.IntRange(0, len(defs)-1).Draw(t, "faultAt")}
-			f.Kind = rapid.SampledFrom([]string{si.FaultClose, si.FaultStatus, si.FaultNoMarker, si.FaultNoHeader, si.FaultObjString}).Draw(t, "faultKind")
+			f.Kind = rapid.SampledFrom([]string{si.FaultClose, si.FaultStatus, si.FaultNoMarker, si.FaultNoHeader, si.FaultObjString, si.FaultBodyCut}).Draw(t, "faultKind")
 		}
 		if at[f.N] {
 			continue
@@ -848,6 +909,9 @@ func genCase(t *rapid.T) Case {
 		at[f.N] = true
 		if f.Kind == si.FaultStatus {
 			f.Status = rapid.SampledFrom(faultStatuses).Draw(t, "faultStatus")
+		}
+		if f.Kind == si.FaultBodyCut {
+			f.Keep = rapid.IntRange(0, 400).Draw(t, "faultKeep")
 		}
 		hasClose = hasClose || f.Kind == si.FaultClose
 		c.Faults = append(c.Faults, f)
